@@ -209,8 +209,8 @@ def _conservation(ctx, fq: str, rule_id: str, props: List[str], allow: Set[str])
         yield from _loop_guards(ctx, f, lp, g, res, rule_id, props, loop_key, drop_sets)
 
 
-def _stmt_guard_clauses(ctx, f: Func, node: ast.AST, subst):
-    return guard_clauses(guards(node, through_loops=False), subst)
+def _stmt_guard_clauses(ctx, f: Func, node: ast.AST, subst, lp=None):
+    return guard_clauses(guards(node, stop=lp) if lp is not None else guards(node, through_loops=False), subst)
 
 
 def _filter_param(f: Func) -> Optional[str]:
@@ -246,7 +246,7 @@ def _loop_guards(ctx, f: Func, lp: ast.For, g, res, rule_id, props, loop_key, dr
         for e in evs:
             seen.setdefault(id(e.node), e)
     for e in seen.values():
-        cl = _stmt_guard_clauses(ctx, f, e.node, subst)
+        cl = _stmt_guard_clauses(ctx, f, e.node, subst, lp)
         key = f"{loop_key} | {e.kind} guard | {norm(stmt_of(e.node), 90)}{occ(f, e.node)}"
         if e.kind == "BAD":
             continue
@@ -287,7 +287,7 @@ def _loop_guards(ctx, f: Func, lp: ast.For, g, res, rule_id, props, loop_key, dr
         for e in seen.values():
             if e.kind != "KEEP":
                 continue
-            cl = _stmt_guard_clauses(ctx, f, e.node, subst)
+            cl = _stmt_guard_clauses(ctx, f, e.node, subst, lp)
             fc = filter_clause(fp, item)
             neg_filter_units = [{(f"truthy({fp})", True)}, {(sorted(fc)[0][0], False)} if False else None]
             # KEEP is legitimate iff guards entail not-filter, or not-query, or not-changed
@@ -389,7 +389,7 @@ def _remove_counters(ctx):
                                    f"{incs.get(j, 0)} times (early-exit test would be wrong)")
         if renum:
             r = renum[0]
-            cl = guard_clauses(guards(r, through_loops=False))
+            cl = guard_clauses(guards(r, stop=lp))
             x, y = sorted([pos, newpos or "?"])
             if not any(len(c) == 1 and next(iter(c)) == (f"eq({x},{y})", False) for c in cl):
                 bad.append(f"`{norm(r)}` is not guarded by `{pos} != {newpos}`")
@@ -450,14 +450,14 @@ def _update_counters(ctx):
                 a0 = n.args[0] if n.args else None
                 if isinstance(a0, ast.List) and a0.elts and isinstance(a0.elts[0], ast.Call) \
                         and call_name(a0.elts[0]) == "_serialize_point":
-                    cl = guard_clauses(guards(n, through_loops=False), subst)
+                    cl = guard_clauses(guards(n, stop=lp), subst)
                     if not any(len(c) == 1 and next(iter(c))[1] and "perform_update(" in next(iter(c))[0] for c in cl):
                         bad.append(f"re-serialised append at line {n.lineno} is not conditional on the updater "
                                    f"reporting a change")
         # the updater call itself: under filter and (update_all or query) / index membership
         for n in walk_local(lp):
             if isinstance(n, ast.Call) and isinstance(n.func, ast.Name) and n.func.id == "perform_update":
-                cl = guard_clauses(guards(n, through_loops=False), subst)
+                cl = guard_clauses(guards(n, stop=lp), subst)
                 arg_ok = n.args and isinstance(n.args[0], ast.Name) and all(
                     isinstance(v, ast.Call) and call_name(v) == "_deserialize_storage_item" and v.args
                     and isinstance(v.args[0], ast.Name) and v.args[0].id == item
